@@ -144,6 +144,17 @@ func nonNilIface(v ssa.Value, d int) bool {
 			}
 		}
 		return len(x.Edges) > 0
+	case *ssa.Call:
+		// a same-package helper every return of which hands back a non-nil interface value (`r.rootLink()`)
+		if h := ir.Callee(x.Call); h != nil && h.Blocks != nil && h.Pkg != nil && h.Pkg.Pkg.Path() == ir.MastPath && h.Signature.Results().Len() == 1 {
+			rets := ir.Returns(h)
+			for _, r := range rets {
+				if !nonNilIface(r.Results[0], d+1) {
+					return false
+				}
+			}
+			return len(rets) > 0
+		}
 	}
 	return false
 }
@@ -231,6 +242,10 @@ func runNILROOT(c *Ctx) {
 			pos := P.InstrPos(cs)
 			what := fmt.Sprintf("call %s→%s needs (%s).root != nil", ir.FuncName(caller), name, ir.Sym(a))
 			if why, ok := linkGuardExceptions[edge]; ok {
+				c.OK(pos, what, "exception: "+why, false)
+				continue
+			}
+			if why, ok := chainException(c, caller, r.via); ok {
 				c.OK(pos, what, "exception: "+why, false)
 				continue
 			}
@@ -456,4 +471,34 @@ func idxDesc(v ssa.Value) string {
 		}
 	}
 	return "i"
+}
+
+// chainException: the tabled exception "A→B" also covers a call chain A→h1→…→B whose intermediate functions are
+// private helpers of A (called from nowhere else): extracting the loop that calls B into a helper of A neither loses
+// the exception nor widens it. via lists the chain from the function holding the load up to the current callee.
+func chainException(c *Ctx, caller *ssa.Function, via string) (string, bool) {
+	names := strings.Split(via, " ← ")
+	if len(names) < 2 {
+		return "", false
+	}
+	region := map[string]bool{}
+	for _, f := range regionOf(c, ir.Outermost(caller)) {
+		region[ir.FuncName(f)] = true
+	}
+	for i, x := range names[:len(names)-1] {
+		why, ok := linkGuardExceptions["NILROOT|"+ir.FuncName(caller)+"→"+x]
+		if !ok {
+			continue
+		}
+		all := true
+		for _, h := range names[i+1:] {
+			if !region[h] {
+				all = false
+			}
+		}
+		if all {
+			return why + " (through the private helper " + strings.Join(names[i+1:], ", ") + ")", true
+		}
+	}
+	return "", false
 }
